@@ -352,7 +352,7 @@ theorem stop_targets_application (E : Env) (hs : E.sigs = sigs) (hc : E.cls = "M
       [⟨.scp, .int 255, .int 255, .int 0, some a⟩] := by
     have hbd : bodyOf "MachineController" "send_signal" =
         [.scp (.lit (.int 255)) (.lit (.int 255)) (.lit (.int 0)) (some (.ref "app_id"))] := by rfl
-    simp [wire, wireFuel, hbd, evalEx, lookupV, dget]
+    simp [wire, wireB, wireFuel, hbd, evalEx, lookupV, dget]
   simp only [callRes, hs, hc, hf, List.length_singleton, hr, hb, hw]
   simp
 
